@@ -577,8 +577,36 @@ def mfr_case(ctx, data: bytes, origin, pairing_mode="none") -> None:
         ctx.violation("ble-description-differs-from-reference", f"{data.hex()}: parsed {got} reference {exp}", replay)
 
 
+def encrypted_parse_case(ctx, adv_id: bytes, payload: bytes) -> None:
+    """The OTHER manufacturer-data layout (type 0x11, encrypted notification): the id that routes it to a pairing is the
+    advertising identifier written the same way as everywhere else - six lower-case, zero-padded hex octets."""
+    from aiohomekit.controller.ble.manufacturer_data import HomeKitEncryptedNotification
+
+    data = refb.encrypted_notification(adv_id, payload)
+    replay = {"part": "B-enc", "adv_id": adv_id, "payload": payload}
+    ctx.case("enc", data, sample={"part": "encrypted notification parse", "data": data}, kind="mfr-encrypted")
+    try:
+        n = HomeKitEncryptedNotification.from_manufacturer_data("Dev", "AA:BB:CC:DD:EE:FF", {refb.APPLE: data})
+    except Exception as ex:  # noqa: BLE001
+        ctx.violation(f"encrypted-notification-parse-raises-{type(ex).__name__}", f"{data.hex()}: {ex!r}", replay)
+        return
+    want = (":".join("%02x" % b for b in adv_id), bytes(adv_id), bytes(payload))
+    got = (n.id, bytes(n.advertising_identifier), bytes(n.encrypted_payload))
+    if got != want:
+        ctx.violation("encrypted-notification-parse-differs-from-reference", f"{data.hex()}: parsed {got} reference {want}", replay)
+        return
+    ctx.count("encrypted_notifications_parsed")
+
+
 async def parsing_part(ctx) -> None:
     idx = 0
+    r0 = ctx.grng("C19.enc")
+    for k in range(ctx.pick(200, 5000)):
+        idx += 1
+        adv_id = bytes(r0.choice([0, 1, 9, 0x0A, 0x0F, 0x10, 0xA0, 0xFF, r0.randrange(256)]) for _ in range(6))
+        payload = r0.randbytes(r0.choice([12, 16, 16, 20]))
+        if ctx.mine(idx):
+            encrypted_parse_case(ctx, adv_id, payload)
     for k in range(ctx.pick(2500, 200000)):
         idx += 1
         if ctx.mine(idx):
@@ -641,6 +669,9 @@ def run(ctx) -> None:
 
 
 def replay(ctx, d) -> None:
+    if d.get("part") == "B-enc":
+        encrypted_parse_case(ctx, d["adv_id"], d["payload"])
+        return
     from vf import vloop
 
     async def main():
